@@ -35,7 +35,7 @@ def cfg_walker(maxnodes, alphabet, unmerged, voidkids, export, checkprop, defect
 
 def cfg_etree(maxnodes, alphabet, export, checkprop, defects):
     inv = ["ThmCursor", "ThmRootTailSilent", "ThmExport"]
-    inv += ["ThmPrefix", "ThmRefines"] if checkprop else ["ThmExplained"]
+    inv += ["ThmPrefix", "ThmRefines", "ThmRawNames"] if checkprop else ["ThmExplained"]
     return ("INIT Init\nNEXT Next\nCHECK_DEADLOCK FALSE\n" + "".join("INVARIANT %s\n" % i for i in inv) +
             'CONSTANT MaxNodes = %d\nCONSTANT Alphabet = "%s"\nCONSTANT Export = %s\nCONSTANT CheckProperty = %s\n'
             "CONSTANT KnownDefects = %s\n" % (maxnodes, alphabet, b(export), b(checkprop), dset(defects)))
@@ -139,6 +139,8 @@ def nontrivial_stream(s):
 FINDING_WHAT = {
     "walker-legacy-void-names": "an element named event-source (html5lib's voidElements list) that has children is "
                                 "emitted as EmptyTag + 'SerializeError' token, its children are dropped and Lint rejects",
+    "etree-clark-raw-name": "a raw attribute name '{x}y' stored by the etree builder is read back as the namespaced "
+                            "attribute (x, y); the dom walker emits (None, '{x}y') for the same document",
     "etree-clark-empty-part": "a raw attribute/element name '{}y' or '{x}' is split as Clark notation: empty "
                               "namespace / empty local name reach the stream and Lint rejects",
 }
@@ -222,6 +224,10 @@ def model_checking(ctx, listed):
         r2 = ctx.tlc("MC_EtreeWalker", cfg_etree(2, "narrow", False, True, ["etree-clark-empty-part"]),
                      "mc-witness-clark", expect_ok=False)
         wit["etree-clark-empty-part"] = r2.violated
+    if "etree-clark-raw-name" in listed:
+        c = cfg_etree(2, "narrow", False, False, ["etree-clark-raw-name"]).replace("INVARIANT ThmExplained\n", "INVARIANT ThmRawNames\n")
+        r2 = ctx.tlc("MC_EtreeWalker", c, "mc-witness-rawname", expect_ok=False)
+        wit["etree-clark-raw-name"] = r2.violated
     ctx.notes["finding_witness_at_model_level"] = wit
     for nm, v in wit.items():
         if not v:
@@ -248,7 +254,7 @@ def record_dom(node, sub):
             "hasOther": False, "concat": real_concat(raw)}, None
 
 
-def record_etree(start_el, shape_root, other=None):
+def record_etree(start_el, shape_root, other=None, same_tree=True):
     """trace of the real etree walker started at start_el; the shape is taken from shape_root (an ancestor-or-self);
     other = the dom walker's stream for the same document and start node (when both builders built the same tree)"""
     E, index = proj.etree_shape(shape_root)
@@ -257,7 +263,8 @@ def record_etree(start_el, shape_root, other=None):
         return None, err
     raw, evs = res
     return {"E": E, "start": index[id(start_el)], "evs": evs, "stream": [ptok(t) for t in raw], "lint": real_lint(raw),
-            "other": other if other is not None else [], "hasOther": other is not None, "concat": real_concat(raw),
+            "other": other if other is not None else [], "hasOther": other is not None, "sameTree": bool(same_tree),
+            "concat": real_concat(raw),
             "tree": proj.flatten(proj.proj_etree(start_el))}, None
 
 
@@ -305,9 +312,12 @@ def parsed_traces(ctx, ndocs):
             dom_tr.append(tr)
             dmeta.append(dict(meta, start=j))
             dstreams[j] = tr["stream"]
-        for j in (sorted(dstreams) if same else pick_starts(ctx.rng, len(ecs))):
+        # both streams are compared whenever the two trees have the same container skeleton; sameTree tells the trace
+        # spec whether a difference is a walker matter or a builder divergence (which it then classifies)
+        paired = same or len(dcs) == len(ecs)
+        for j in (sorted(dstreams) if paired else pick_starts(ctx.rng, len(ecs))):
             big = len(ecs) <= 60
-            tr, err = record_etree(ecs[j], eroot if big else ecs[j], dstreams.get(j) if same else None)
+            tr, err = record_etree(ecs[j], eroot if big else ecs[j], dstreams.get(j) if paired else None, same)
             if err:
                 ctx.violation("etree walker raised " + err, dict(meta, kind="trace-etree", start=j))
                 continue
@@ -373,7 +383,7 @@ def judge(ctx, module, traces, metas, tag, listed, kind):
         meta = metas[idx[id(tr)]]
         v = rec["v"]
         counts[v] = counts.get(v, 0) + 1
-        if v == "accept:nonparsed":
+        if v in ("accept:nonparsed", "accept:builders-differ"):
             continue
         if v == "finding":
             for nm in rec["f"]:
@@ -409,7 +419,8 @@ def run(ctx):
         "void elements = the HTML standard's list of the html5lib 1.1 era incl. param (Walker.tla VoidStd, ASSUMED)",
         "doctype name/ids: None and '' identified when the two walkers are compared (minidom stores None for '') (ASSUMED)",
         "names contain no U+000A (tokenizer invariant); ElementTree Clark notation read as in harness/proj.py",
-        "cross-walker clause judged only for documents on which both builders built the same tree (C04 otherwise)",
+        "cross-walker clause: when the builders built different trees the streams are still compared; a difference that "
+        "is not a raw name read back as Clark notation is classed as builder divergence (C04), not judged here",
     ]
     if not model_checking(ctx, listed):
         return
@@ -487,7 +498,7 @@ def replay(case):
         for module, trs in (("Trace_Walker", dom_tr), ("Trace_EtreeWalker", et_tr)):
             if trs:
                 rej = [r for r in core.validate_traces(ctx, module, trs, "replay", consts=consts)
-                       if r[1]["v"] not in ("finding", "accept:nonparsed")]
+                       if r[1]["v"] not in ("finding", "accept:nonparsed", "accept:builders-differ")]
                 if rej:
                     print("VIOLATION property=C11 replay=- (%s)" % rej[0][1])
                     return 1
